@@ -1,6 +1,6 @@
 HOOK_COMMITS = ["c8f347152"]
 # properties whose check the lead has run on the unchanged tree and accepted (fragments of other checks are ignored)
-READY = ["C01", "C02", "C03", "C04", "C05", "C06", "C07", "C08", "C09", "C10", "C11", "C12", "C13", "C14", "C15", "C16", "C17", "C18", "C19"]
+READY = ["C01", "C02", "C03", "C04", "C05", "C06", "C07", "C08", "C09", "C10", "C11", "C12", "C13", "C14", "C15", "C16", "C17", "C18", "C19", "C20"]
 CHECKS = [
  {"property_id": "C01",
   "text": "TLC proves the partition theorems (unique in-plane preimage, Michelogram partition, pair count per bin, detector exchange negates TOF, uncompressed bijection, closed-form ring-pair sets) of spec/Geometry.tla exhaustively for every small configuration; every answer recorded from the real ProjDataInfoCylindricalNoArcCorr / ProjDataInfoBlocksOnCylindricalNoArcCorr objects (all pairs of small generated scanners, samples of the whole scanner database and of rings up to 1000 detectors) must be explained by that specification in TLC trace validation.",
